@@ -452,6 +452,7 @@ def qr_move_scp(asce, ctx, msg):
     if not nop:
         # nothing to move
         _send_response(asce, ctx, msg, 0, 0, 0, 0)
+        return
 
     with asce.ae.request_association(remote_ae) as assoc:
         failed = 0
@@ -465,12 +466,12 @@ def qr_move_scp(asce, ctx, msg):
                 failed += 1
             if status.is_warning:
                 warning += 1
+            completed += 1
             rsp.status = int(statuses.C_MOVE_PENDING)
             rsp.num_of_remaining_sub_ops = nop - completed
             rsp.num_of_completed_sub_ops = completed
             rsp.num_of_failed_sub_ops = failed
             rsp.num_of_warning_sub_ops = warning
-            completed += 1
 
             # send response
             asce.send(rsp, ctx.id)
